@@ -11,10 +11,12 @@ package main
 
 import (
 	"encoding/json"
+	"flag"
 	"fmt"
 	"os"
 	"regexp"
 	"strings"
+	"syscall"
 	"time"
 
 	"verif/engine/ev"
@@ -450,6 +452,15 @@ func report(w *pool.W, st *stats, seen map[string]bool, g *graph, c cellSpec, th
 			k = "caught-panic"
 		}
 		key = "crash:" + c.Cons + ":" + k
+	} else if cg.AnonK != 0 && cc.T == nil && cc.Obj == cg.anon() && !full {
+		// A dispatch failure that needs the class to be anonymous (the minimiser first tries the
+		// same class declared by name). What a broken self:: / parent:: / method lookup of an
+		// anonymous class answers depends on classes unrelated to the object (origami resolves
+		// through whatever named class the parser saw last), so the reduced graph and the wrong
+		// marker vary with the surroundings: the key names construct and verdict only, the
+		// reduced graph is in the detail and the replay file.
+		key = anonOnlyKey(cc.Cons, v)
+		seen["anon-only|"+cc.Cons+"|"+v] = true
 	} else {
 		key = fmt.Sprintf("%s: %s want=%s got=%s", cc.Cons, cg.describe(cc), want, got)
 		if full {
@@ -463,6 +474,10 @@ func report(w *pool.W, st *stats, seen map[string]bool, g *graph, c cellSpec, th
 	w.Emit(rec{Kind: "fail", Key: key, Clause: cc.Cons + ":" + v, Size: len(script),
 		Case:   caseDesc{Family: "graph", G: cg, Cell: &cc, Throwable: throwable, Full: full, Script: script, Want: want, Got: got},
 		Detail: fmt.Sprintf("construct %s on %s\nreference (reachability / most-derived definer): %s; origami: %s%s\n%s", cc.Cons, cg.describe(cc), want, got, remark, trunc(res.Out, 300))})
+}
+
+func anonOnlyKey(cons, verdict string) string {
+	return fmt.Sprintf("%s: wrong only when the object's class is an anonymous class (%s)", cons, verdict)
 }
 
 func trunc(s string, n int) string {
@@ -506,6 +521,13 @@ func checkGraph(w *pool.W, st *stats, seen map[string]bool, g *graph, n names, v
 			// dedup before the (expensive) reduction: same construct, same want/got kind and the
 			// same local shape of the pair are reduced only once per shard
 			sig := fmt.Sprintf("%s|%s|%s|%v|%s|a%v|m%d|ns%d", c.Cons, wk, gk, throwable, localShape(g, c), c.Obj == g.anon(), c.Mk, g.NS)
+			if c.T == nil && c.Obj == g.anon() {
+				// dispatch on the anonymous object: one reduction per construct and verdict when
+				// the failure needs the class to be anonymous (see anonOnlyKey)
+				if ak := "anon-only|" + c.Cons + "|" + vd; seen[ak] {
+					continue
+				}
+			}
 			if seen[sig] {
 				continue
 			}
@@ -609,6 +631,7 @@ type shardArg struct {
 	Seed     int64
 	Variants string // "both" | "plain" | "throwable"
 	Anon     string // "" | "last" (the last class, a leaf, also as an anonymous class: complete up to renaming when every labelled graph is enumerated) | "leaves" (every leaf in turn)
+	AnonVar  string // variants run on the graphs with an anonymous class ("" = Variants)
 	NS       bool   // every program also inside a namespace (unqualified and fully qualified references)
 	Deadline int64  // unix seconds; 0 = none
 }
@@ -630,6 +653,10 @@ func graphWorker(w *pool.W, arg json.RawMessage) {
 	}
 	if a.Variants == "throwable" {
 		variants = []bool{true}
+	}
+	anonVariants := variants
+	if a.AnonVar == "throwable" {
+		anonVariants = []bool{true}
 	}
 	expired := false
 	var skipped int64
@@ -669,13 +696,16 @@ func graphWorker(w *pool.W, arg json.RawMessage) {
 					h := g.clone()
 					h.AnonK = x + 1
 					st.outcomes["~graphs-with-anonymous-class"]++
-					checkGraph(w, st, seen, h, n, variants)
+					checkGraph(w, st, seen, h, n, anonVariants)
 					forms = append(forms, h)
 				}
 			}
 			if a.NS {
 				for _, f := range forms {
 					for ns := 1; ns <= 2; ns++ {
+						if ns == 2 && f.AnonK != 0 {
+							continue // qualified references: on the all-named form only
+						}
 						h := f.clone()
 						h.NS = ns
 						st.outcomes["~graphs-in-namespace"]++
@@ -724,6 +754,10 @@ func main() {
 		fmt.Println("4x3 labelled:", total, "kept after symmetry reduction:", kept)
 		return
 	}
+	if len(os.Args) > 1 && os.Args[1] == "bench" {
+		bench()
+		return
+	}
 	c := ev.New("C08")
 	defer runner.Cleanup()
 	if c.Replay != "" {
@@ -736,9 +770,15 @@ func main() {
 	if !c.Quick() {
 		budget = 45 * time.Minute
 	}
+	if f := flag.Lookup("budget"); f != nil {
+		// --budget (parsed by ev) also moves the deadline handed to the shards
+		if d, err := time.ParseDuration(f.Value.String()); err == nil && d > 0 {
+			budget = d
+		}
+	}
 	deadline := time.Now().Add(budget).Unix()
 	var shards []pool.Shard
-	addFamily := func(nc, ni int, defMode string, sym bool, variants string, split int, anon string, ns bool) {
+	addFamily := func(nc, ni int, defMode string, sym bool, variants string, split int, anon string, ns bool, anonVar string) {
 		nf := len(forests(nc))
 		nig := len(ifaceGraphs(ni))
 		total := 1 << (nc * ni)
@@ -753,7 +793,7 @@ func main() {
 					if to > total {
 						to = total
 					}
-					shards = append(shards, pool.Shard{Kind: "graph", Arg: shardArg{NC: nc, NI: ni, Forest: f, IG: ig, DefMode: defMode, ImplFrom: from, ImplTo: to, Sym: sym, Seed: c.Seed, Variants: variants, Deadline: deadline, Anon: anon, NS: ns}})
+					shards = append(shards, pool.Shard{Kind: "graph", Arg: shardArg{NC: nc, NI: ni, Forest: f, IG: ig, DefMode: defMode, ImplFrom: from, ImplTo: to, Sym: sym, Seed: c.Seed, Variants: variants, Deadline: deadline, Anon: anon, NS: ns, AnonVar: anonVar}})
 				}
 			}
 		}
@@ -761,18 +801,24 @@ func main() {
 	// complete cross product up to 3 classes + 2 interfaces (6144 graphs at 3+2)
 	// every family also with its last class written as an anonymous class expression; the small
 	// families also inside a namespace
-	addFamily(1, 2, "each", false, "both", 1, "last", true)
-	addFamily(2, 2, "each", false, "both", 1, "last", true)
+	addFamily(1, 2, "each", false, "both", 1, "last", true, "")
+	addFamily(2, 2, "each", false, "both", 1, "last", true, "")
 	// dispatch over all 4-class forests x all override sets
-	addFamily(4, 0, "each", false, "both", 1, "last", false)
+	addFamily(4, 0, "each", false, "both", 1, "last", false, "")
 	// interfaces with two parents: 2 classes x 3 interfaces (I3 extends any subset of {I1,I2})
-	addFamily(2, 3, "all", false, "both", 1, "last", true)
-	addFamily(3, 2, "each", false, "both", 8, "last", !c.Quick())
+	addFamily(2, 3, "all", false, "both", 1, "last", !c.Quick(), "")
+	// 3 classes x 2 interfaces is the bulk: quick runs its anonymous-class forms in the throwable
+	// variant only (which has every construct of the plain one plus catch), thorough in both
+	anonVar32 := "throwable"
+	if !c.Quick() {
+		anonVar32 = ""
+	}
+	addFamily(3, 2, "each", false, "both", 8, "last", !c.Quick(), anonVar32)
 	bound := "all graphs with <=3 classes x 2 interfaces (I2 extends subset of {I1}) x implements x override sets; all 4-class forests x override sets; all 2-class x 3-interface (multiple extends) graphs"
 	if !c.Quick() {
 		// 4 classes x 3 interfaces with multiple extends, every class defining the method,
 		// reduced by class / interface renaming
-		addFamily(4, 3, "all", true, "throwable", 16, "leaves", false)
+		addFamily(4, 3, "all", true, "throwable", 16, "leaves", false, "")
 		bound += "; all 4-class forests x 3-interface DAGs (multiple extends) x implements relations up to renaming"
 	}
 	likeShards(c, &shards)
@@ -860,4 +906,69 @@ func replay(c *ev.Check) {
 		c.Fail(key, cs.Cell.Cons+":"+v, 0, cs, fmt.Sprintf("want=%s got=%s", want, got))
 	}
 	c.Finish(1, st.runs, 1, "replay")
+}
+
+// bench (development aid, decides nothing): CPU seconds of the script runs per family and form,
+// measured on every 16th graph of the family and scaled up.
+func bench() {
+	cpu := func() float64 {
+		var ru syscall.Rusage
+		syscall.Getrusage(syscall.RUSAGE_SELF, &ru)
+		return float64(ru.Utime.Sec) + float64(ru.Utime.Usec)/1e6 + float64(ru.Stime.Sec) + float64(ru.Stime.Usec)/1e6
+	}
+	st := &stats{outcomes: map[string]int64{}}
+	n := generic
+	for _, fam := range [][3]int{{1, 2, 1}, {2, 2, 1}, {4, 0, 1}, {2, 3, 0}, {3, 2, 1}} {
+		nc, ni := fam[0], fam[1]
+		tot := map[string]float64{}
+		cnt, k := 0, 0
+		for _, parent := range forests(nc) {
+			for _, iext := range ifaceGraphs(ni) {
+				for im := 0; im < 1<<(nc*ni); im++ {
+					dms := []int{1<<nc - 1}
+					if fam[2] == 1 {
+						dms = nil
+						for d := 0; d < 1<<nc; d++ {
+							dms = append(dms, d)
+						}
+					}
+					for _, dm := range dms {
+						cnt++
+						if k++; k%16 != 0 {
+							continue
+						}
+						g := &graph{Parent: parent, IExt: iext}
+						for c := 0; c < nc; c++ {
+							row := make([]bool, ni)
+							for i := 0; i < ni; i++ {
+								row[i] = im&(1<<(c*ni+i)) != 0
+							}
+							g.Impl = append(g.Impl, row)
+							g.Def = append(g.Def, dm&(1<<c) != 0)
+						}
+						meas := func(name string, h *graph, thr bool) {
+							t0 := cpu()
+							st.run(h.source(n, thr, h.cells(thr)))
+							tot[name] += cpu() - t0
+							tot[name+"#cells"] += float64(len(h.cells(thr)))
+						}
+						meas("named/plain", g, false)
+						meas("named/throwable", g, true)
+						h := g.clone()
+						h.AnonK = nc
+						meas("anon/plain", h, false)
+						meas("anon/throwable", h, true)
+						h1 := g.clone()
+						h1.NS = 1
+						meas("ns1/plain", h1, false)
+						meas("ns1/throwable", h1, true)
+					}
+				}
+			}
+		}
+		fmt.Printf("family %dx%d: %d graphs\n", nc, ni, cnt)
+		for _, k := range []string{"named/plain", "named/throwable", "anon/plain", "anon/throwable", "ns1/plain", "ns1/throwable"} {
+			fmt.Printf("  %-16s %7.1f CPU-s for the family, %9.0f cells\n", k, tot[k]*16, tot[k+"#cells"]*16)
+		}
+	}
 }
